@@ -87,7 +87,7 @@ func runProperty(id, tier string) int {
 	pr := &PropertyRun{ID: id, Tier: tier, Explanation: prop.Explanation, Assumptions: append(append([]string{}, commonAssumptions...), prop.Assumptions...)}
 	var all [][]*RuleResult
 	for _, c := range configsFor(tier) {
-		p, err := Load(repoDir(), c[0], c[1])
+		p, err := loadCached(repoDir(), c[0], c[1], tier)
 		if err != nil {
 			r := NewRule("load", "the program must load and type-check")
 			r.Fail("load "+c[0]+"/"+c[1], "-", err.Error())
@@ -106,11 +106,35 @@ func runProperty(id, tier string) int {
 		rs := safeRun(prop, p, tier)
 		all = append(all, rs)
 		p = nil
-		runtime.GC()
-		debug.FreeOSMemory()
+		if progCacheOn == "" {
+			runtime.GC()
+			debug.FreeOSMemory()
+		}
 	}
 	pr.Rules = mergeRules(all)
 	return pr.Finish(start)
+}
+
+// progCache keeps the loaded, type-checked and SSA-built program of one configuration alive between
+// the properties of one `check all` run (one per build configuration of the tier), instead of loading the same
+// unchanged source twenty times. The analyser only reads the program; per-program memo tables (call
+// graph, function index) are filled on first use and are the same for every property.
+var progCache = map[string]*Prog{}
+var progCacheOn string
+
+func loadCached(dir, goos, goarch, tier string) (*Prog, error) {
+	if progCacheOn == "" {
+		return Load(dir, goos, goarch)
+	}
+	key := dir + "|" + goos + "/" + goarch
+	if p, ok := progCache[key]; ok {
+		return p, nil
+	}
+	p, err := Load(dir, goos, goarch)
+	if err == nil {
+		progCache[key] = p
+	}
+	return p, err
 }
 
 func safeRun(prop *Property, p *Prog, tier string) (rs []*RuleResult) {
@@ -148,6 +172,7 @@ func main() {
 			}
 			sort.Strings(ids)
 			code := 0
+			progCacheOn = "all"
 			for _, id := range ids {
 				if c := runProperty(id, tier); c > code {
 					code = c
